@@ -4,6 +4,7 @@ import (
 	"go/ast"
 	"go/constant"
 	"go/types"
+	"strings"
 
 	"lndlint/internal/an"
 )
@@ -17,21 +18,56 @@ func init() {
 func c06StoreIntake(r *an.Run) {
 	p := r.Prog
 	r.Obl("secret-reaches-the-store-only-after-it-revoked-the-current-commitment", "GUARD",
-		"LightningChannel.ReceiveRevocation calls RevocationStore.AddNextEntry only where the commitment point computed from the revealed secret (input.ComputeCommitmentPoint of the message's Revocation) was compared equal to channelState.RemoteCurrentRevocation; the store's bucket array has one bucket for every value countTrailingZeros can return (maxHeight+1, the counting loop stops at maxHeight); NewRevocationStoreFromBytes indexes the array only after the serialised bucket count was compared against the array length",
-		"the store checks a new secret only against the buckets below its own, which for every other height is none: a secret that does not revoke the current commitment would be stored, the index advanced, and the genuine secret refused afterwards; the secret of index 0 has maxHeight trailing zeros and needs the last bucket; an unchecked count indexes outside the array", 4,
+		"a revealed secret reaches RevocationStore.AddNextEntry only on a route that compared it first: every non-test AddNextEntry call on a channel's store is either in LightningChannel.ReceiveRevocation, or in OpenChannel.AdvanceCommitChainTailWithRevocation where it receives the method's secret parameter; every call of that method, and every AddNextEntry call of ReceiveRevocation itself, lies in ReceiveRevocation where the commitment point computed from the revealed secret (input.ComputeCommitmentPoint of the message's Revocation) was compared equal to channelState.RemoteCurrentRevocation, and passes the hash of that same Revocation field; the store's bucket array has one bucket for every value countTrailingZeros can return (maxHeight+1, the counting loop stops at maxHeight); NewRevocationStoreFromBytes indexes the array only after the serialised bucket count was compared against the array length",
+		"the store checks a new secret only against the buckets below its own, which for every other height is none: a secret that does not revoke the current commitment would be stored, the index advanced, and the genuine secret refused afterwards; the secret of index 0 has maxHeight trailing zeros and needs the last bucket; an unchecked count indexes outside the array", 5,
 		func(o *an.Obl) {
 			f := p.Func("lnwallet.LightningChannel.ReceiveRevocation")
-			adds := f.Calls(an.CalleeNamed("AddNextEntry"), true)
-			if need(o, f, "AddNextEntry call", adds, 1) {
-				derived := canonTerm(`input\.ComputeCommitmentPoint\(\$p0\.Revocation(\[:\])?\)$`)
-				current := an.FieldPath(an.FieldPath(an.Recv(), "channelState"), "RemoteCurrentRevocation")
-				fact := an.Truth(an.CallNamed("IsEqual", derived, current), true,
-					"ComputeCommitmentPoint(revMsg.Revocation).IsEqual(channelState.RemoteCurrentRevocation)")
+			derived := canonTerm(`input\.ComputeCommitmentPoint\(\$p0\.Revocation(\[:\])?\)$`)
+			current := an.FieldPath(an.FieldPath(an.Recv(), "channelState"), "RemoteCurrentRevocation")
+			fact := an.Truth(an.CallNamed("IsEqual", derived, current), true,
+				"ComputeCommitmentPoint(revMsg.Revocation).IsEqual(channelState.RemoteCurrentRevocation)")
+			const secretRe = `(^|/)chainhash(/v2)?\.NewHash\(\$p0\.Revocation(\[:\])?\)`
+			const method = "chanstate.OpenChannel.AdvanceCommitChainTailWithRevocation"
+			// the routes into the store
+			routes := 0
+			w := r.Wide()
+			for _, fn := range w.Funcs(false) {
+				if pk := an.Short(fn.Pkg.PkgPath); pk == "shachain" || strings.HasPrefix(pk, "migration") {
+					continue // the store's own package; frozen migration copies
+				}
+				for _, s := range fn.Calls(an.CalleeNamed("AddNextEntry"), false) {
+					routes++
+					a := fn.ArgCanon(s)
+					o.Site("AddNextEntry(%v) in %s", a, fn.ID)
+					switch fn.Root().ID {
+					case f.ID:
+						// checked below with the prog's own copy of the function
+					case method:
+						if len(a) != 1 || a[0] != "$p0" || fn.Lit != nil {
+							o.FailAt(method+"#stored-secret", s.Where(), "AdvanceCommitChainTailWithRevocation stores %v, expected its secret parameter ($p0), outside any closure", a)
+						}
+						c04OperandsNotOverwritten(o, fn, s.Node.(*ast.CallExpr).Args[0], "stored secret")
+					default:
+						o.FailAt("AddNextEntry<-"+fn.Root().ID, s.Where(), "%s puts a secret into a revocation store; only ReceiveRevocation (directly or through AdvanceCommitChainTailWithRevocation) compares it with the current commitment point first", fn.Root().ID)
+					}
+				}
+				for _, s := range fn.Calls(an.CalleeIs(method), false) {
+					if fn.Root().ID != f.ID {
+						o.FailAt(method+"<-"+fn.Root().ID, s.Where(), "%s calls AdvanceCommitChainTailWithRevocation, which stores the secret it is given unchecked; only ReceiveRevocation compares it with the current commitment point first", fn.Root().ID)
+					}
+				}
+			}
+			if routes == 0 {
+				o.FailAt("AddNextEntry#routes", "", "no non-test AddNextEntry call found: the anchor moved")
+			}
+			adds := append(f.Calls(an.CalleeNamed("AddNextEntry"), true), f.Calls(an.CalleeIs(method), true)...)
+			if need(o, f, "AddNextEntry / AdvanceCommitChainTailWithRevocation call", adds, 1) {
 				for _, s := range adds {
 					guarded(o, f, s, fact)
-					if a := f.ArgCanon(s); len(a) != 1 || !reMatch(`chainhash(/v2)?\.NewHash\(\$p0\.Revocation(\[:\])?\)`, a[0]) {
-						o.FailAt(f.ID+"#stored-secret", s.Where(), "the value handed to AddNextEntry is %v, expected the hash of the message's Revocation field (the one the commitment point was computed from)", a)
+					if a := f.ArgCanon(s); len(a) < 1 || !reMatch(secretRe+`$`, a[0]) {
+						o.FailAt(f.ID+"#stored-secret", s.Where(), "the value handed to the store is %v, expected the hash of the message's Revocation field (the one the commitment point was computed from)", a)
 					}
+					c04OperandsNotOverwritten(o, f, s.Node.(*ast.CallExpr).Args[0], "stored secret")
 				}
 			}
 
